@@ -26,6 +26,7 @@ type Engine struct {
 	funcSpecs map[*ssa.Function]*FuncSpec
 	specByKey map[string]*FuncSpec // "<pkgpath>.<Name>"
 	externs   map[string]*ExternSpec
+	privCache map[*ssa.Function]*privInfo
 	specFuncs map[string]*SpecFunc
 	lemmas    []*LemmaSpec
 	files     []*ContractFile
